@@ -9,7 +9,7 @@ MP = "nucs/solvers/multiprocessing_solver.py::MultiprocessingSolver."
 
 
 def h_get(ex, st, node, args):
-    """solutions.get(): returns message number `pos` of the ghost sequence and advances; requires that a message will arrive"""
+    """get_message(...): by its contract (proved below) it returns the next message of the ghost sequence or raises; here: message number `pos`"""
     pos = st.env["pos"]
     M = st.ghost_env["M"]
     ex.oblige(st, "pre", "C18.will_arrive", pos < M, tags={"C11", "C18"}, line=node.lineno)
@@ -22,6 +22,10 @@ def h_get(ex, st, node, args):
         stats = Arr(st.ghost_env["stats_table"].obj, [("fix", pos), ("rng", 0, 13)])
         out.append((s, (proc, None if is_none else row, stats)))
     return out
+
+
+def h_noop(ex, st, node, args):
+    return None
 
 
 def h_yield(ex, st, node, args):
@@ -42,6 +46,7 @@ WF = [
 CNT = "count(p, 0, N, marker_pos[p] >= pos)"
 INV = [
     ("C11.pos", "0 <= pos and pos <= M"),
+    ("C18.done", "forall(p, 0, N, done[p] == (marker_pos[p] < pos))"),
     ("C11.pending", f"nb == {CNT}"),
     ("C11.stats", "forall(p, 0, N, implies(marker_pos[p] < pos, forall(k, 0, 13, self.statistics[p, k] == stats_table[marker_pos[p], k])))"),
 ]
@@ -57,8 +62,8 @@ COMMON_ENS = [
 
 contract(MP + "solve", types={"self": {"solvers": "list[N]", "statistics": "i64[N,13]"}},
     ghost={"msg_proc": "int[M]", "msg_none": "bool[M]", "marker_pos": "int[N]", "yield_idx": "int[M]", "sol_table": "int[M,V]", "stats_table": "int[M,13]"}, ghost_init={"pos": 0, "yielded": "emptylist"},
-    requires=WF, env={"solutions.get": h_get, "yield": h_yield}, result="none", props=["C11", "C17", "C18"],
-    loops={1: dict(index="i", fingerprint="for enumerate(self.solvers)", invariant=[("C11.nomsg", "pos == 0 and len(yielded) == 0")]),
+    requires=WF, env={"get_message": h_get, "yield": h_yield, "processes.append": h_noop, "processes[proc_idx].start": h_noop}, result="none", props=["C11", "C17", "C18"],
+    loops={1: dict(index="i", fingerprint="for enumerate(self.solvers)", invariant=[("C11.nomsg", "pos == 0 and len(yielded) == 0")], also_modifies=["processes"]),
            2: dict(fingerprint="while nb > 0", also_modifies=["pos", "yielded", "yield_idx"], decreases="M - pos", init_hints=INIT_HINTS,
                    invariant=INV + [
                        ("C11.yielded_sorted", "forall(i, 0, len(yielded) - 1, yielded[i] < yielded[i + 1])"),
@@ -97,9 +102,9 @@ for variant, iface, cmp in (("min", "iface:Lt", "<="), ("max", "iface:Gt", ">=")
     contract(MP + "optimize", variant=variant,
         types={"self": {"solvers": "list[N]", "statistics": "i64[N,13]"}, "variable_idx": "int", "proc_func_name": "opaque", "comparison_func": "opaque"},
         ghost={"msg_proc": "int[M]", "msg_none": "bool[M]", "marker_pos": "int[N]", "sol_table": "int[M,V]", "stats_table": "int[M,13]"}, ghost_init={"pos": 0},
-        requires=WF + ["0 <= variable_idx and variable_idx < V"], env={"solutions.get": h_get}, calls={"comparison_func": iface},
+        requires=WF + ["0 <= variable_idx and variable_idx < V"], env={"get_message": h_get, "processes.append": h_noop, "processes[proc_idx].start": h_noop}, calls={"comparison_func": iface},
         result="none", props=["C11", "C17", "C18", "C03"],
-        loops={1: dict(index="i", fingerprint="for enumerate(self.solvers)", invariant=[("C11.nomsg", "pos == 0")]),
+        loops={1: dict(index="i", fingerprint="for enumerate(self.solvers)", invariant=[("C11.nomsg", "pos == 0")], also_modifies=["processes"]),
                2: dict(fingerprint="while nb > 0", also_modifies=["pos"], decreases="M - pos", init_hints=INIT_HINTS, var_types={"best_solution": best_cases},
                        invariant=INV + BEST_INV, hints=HEAD_HINTS, step_hints=STEP_HINTS, exit_hints=EXIT_HINTS)},
         hints=EXIT_HINTS,
@@ -116,3 +121,42 @@ contract(MPM + "sum_stats", types={"stats": "i64[N,13]", "index": "int"}, props=
 contract(MPM + "max_stats", types={"stats": "i64[N,13]", "index": "int"}, props=["C11", "C17"], modifies=[],
     requires=["0 <= index and index < 13", "N >= 1"],
     ensures=[("C17.max", "forall(p, 0, N, stats[p, index] <= result) and exists(p, 0, N, stats[p, index] == result)")], tags={"C17": ["C17", "C11"]}, arities=[{"N": 2}])
+
+
+# ------------------------------------------------------------------ get_message (C18): never blocks without a timeout; a dead unfinished worker is detected
+assume("A-ENV (C18) fault model: any worker may be dead (is_alive() false) at any time; a dead worker sends nothing more; Queue.get(timeout=t) returns a pending message or raises queue.Empty after t")
+
+
+def h_get_timeout(ex, st, node, args):
+    has_timeout = any(k.arg == "timeout" for k in node.keywords) or len(node.args) >= 2
+    ex.oblige(st, "post", "C18.bounded_wait", bool(has_timeout), tags={"C18"}, line=node.lineno)
+    pos, M = st.env["pos"], st.ghost_env["M"]
+    out = []
+    for s, pending in ex.branch(st, pos < M):
+        if pending:
+            s2 = s.fork()
+            s2.env["pos"] = pos + 1
+            out.append((s2, (z3.Select(s.heap[s.ghost_env["msg_proc"].obj.id], zint(pos)), Opaque("solution"), Opaque("statistics"))))
+            # the message may also not have arrived within the timeout
+            arrived = fresh_bool("arrived")
+            s.pc.append(z3.Not(arrived))
+            out.append((s, RaiseV("queue.Empty")))
+        else:
+            out.append((s, RaiseV("queue.Empty")))
+    return out
+
+
+def h_is_alive(ex, st, node, args):
+    p = st.env["proc_idx"]
+    return z3.Select(st.heap[st.ghost_env["alive"].obj.id], zint(p))
+
+
+contract(MPM + "get_message", types={"solutions": "opaque", "processes": "list[N]", "done": "bool[N]"},
+    ghost={"msg_proc": "int[M]", "alive": "bool[N]"}, ghost_init={"pos": 0}, result="none", props=["C18"],
+    requires=["forall(j, 0, M, 0 <= msg_proc[j] and msg_proc[j] < N)"],
+    env={"solutions.get": h_get_timeout, "processes[proc_idx].is_alive": h_is_alive}, modifies=[],
+    loops={1: dict(fingerprint="while True", also_modifies=["pos"], invariant=[("C18.pos", "0 <= pos and pos <= M")],
+                   step_ensures=[("C18.dead_worker_detected", "pos < M or forall(p, 0, N, done[p] or alive[p])")]),
+           2: dict(index="q", fingerprint="for range(len(processes))", invariant=[("C18.scanned", "forall(p, 0, q, done[p] or alive[p])"), ("C18.pos", "0 <= pos and pos <= M")])},
+    ensures=[("C18.message", "0 < pos and pos <= M")],
+    tags={"C18": ["C18"]}, arities=[])
